@@ -27,6 +27,14 @@ LEVEL_TEXT = (
 SPAWN = re.compile(r"subprocess\.Popen$|\.start$")
 
 
+def walk_all(ps):
+    for p in ps:
+        yield p
+        for e in p.evs:
+            if e.kind == "loop":
+                yield from walk_all(e.extra["paths"])
+
+
 def run(ctx) -> None:
     P = ctx.P
     RM = ctx.rule("C18/monitor-discipline", "the debouncer's untimed wait sits in a predicate loop whose predicate its notifiers write (same instance as C06)", floor=3)
@@ -85,6 +93,83 @@ def run(ctx) -> None:
         if e.kind == "store" and e.extra.get("attr") == "_events" and held.get("self._cond", 0) <= 0:
             okb, msgb = False, "the pending batch is swapped out without the condition held: an event appended concurrently is lost"
     ctx.check(okb and ncb >= 1, RB, "EventDebouncer.run hands over the swapped batch, only while running", msgb or "no callback call found", D.methods["run"].loc)
+    # ---- quiescence: with a debounce interval the batch is handed over only after a timed wait of that interval expired
+    RQ = ctx.rule(
+        "C18/debounce-quiescence",
+        "with a non-zero interval, the last wait before the callback is a timed wait on the interval whose result says 'timed out' (no "
+        "further event arrived); the untimed wait for the first event is reached only with no event pending and the thread running",
+        floor=2,
+    )
+
+    def last_wait(evs):
+        """('top', index) of the last wait at this level, or ('loop', loop event) if a loop containing waits comes later."""
+        for j in range(len(evs) - 1, -1, -1):
+            x = evs[j]
+            if x.kind == "wait":
+                return "top", j
+            if x.kind == "loop" and any(y.kind == "wait" for b in x.extra["paths"] for y in b.flat()):
+                return "loop", x
+        return None, None
+
+    def timed_out(evs, j):
+        w = evs[j]
+        if not w.extra.get("timed"):
+            return False, "the last wait before the callback is the untimed wait for the first event"
+        res = next((x for x in evs[j + 1 : j + 3] if x.kind == "cond" and ".wait(" in x.text), None)
+        if res is None:
+            return False, "the result of the timed wait is not tested: a notify (a further event) ends the wait like the timeout does"
+        if "debounce_interval_seconds" not in res.text:
+            return False, f"the timed wait `{res.text[:60]}` does not wait for the debounce interval"
+        if res.extra.get("truth") is not False:
+            return False, "the batch is handed over when the timed wait was *notified* (a further event arrived) instead of when it timed out"
+        return True, ""
+
+    okq, msgq, nq = True, "", 0
+
+    def scan_cb(ps):
+        nonlocal okq, msgq, nq
+        for p in ps:
+            for i, e in enumerate(p.evs):
+                if e.kind == "loop":
+                    scan_cb(e.extra["paths"])
+                if e.kind == "call" and e.extra.get("func") == "self.events_callback":
+                    before = p.evs[:i]
+                    iv = [x for x in before if x.kind == "cond" and x.text == "self.debounce_interval_seconds"]
+                    if iv and iv[-1].extra.get("truth") is False:
+                        continue  # no debouncing requested
+                    nq += 1
+                    where, at = last_wait(before)
+                    if where == "top":
+                        ok1, m1 = timed_out(before, at)
+                    elif where == "loop":
+                        ok1, m1 = True, ""
+                        for b in at.extra["paths"]:
+                            if b.outcome is not NORMAL:
+                                continue
+                            w2, a2 = last_wait(b.evs)
+                            if w2 == "top":
+                                o2, m2 = timed_out(b.evs, a2)
+                                if not o2:
+                                    ok1, m1 = False, m2 + " (loop left through its condition)"
+                    else:
+                        ok1, m1 = False, "no wait at all precedes the callback although a debounce interval is set"
+                    if not ok1:
+                        okq, msgq = False, m1
+
+    scan_cb(rp)
+    ctx.check(okq and nq > 0, RQ, "EventDebouncer.run delivers after a quiet interval", msgq or "no debounced hand-over found", D.methods["run"].loc)
+    okp, msgp, nuw = True, "", 0
+    for p in walk_all(rp):
+        for i, e in enumerate(p.evs):
+            if e.kind == "wait" and not e.extra.get("timed"):
+                nuw += 1
+                c = {x.text: x.extra.get("truth") for x in p.evs[:i] if x.kind == "cond"}
+                if c.get("self._events") is not False:
+                    okp, msgp = False, "the untimed wait is reached while events are pending: they are not delivered until something else notifies"
+                if c.get("self._stopped_event.is_set()") is not False and not any(("should_keep_running" in k and v) for k, v in c.items()):
+                    okp, msgp = False, "the untimed wait is reached although stop() was called: the thread never exits"
+    ctx.check(okp and nuw > 0, RQ, "EventDebouncer.run waits for the first event only when idle and running", msgp or "no untimed wait found", D.methods["run"].loc)
+
     sp = en.run(D.methods["stop"], selfcls="EventDebouncer")
     oks = True
     for e, held, p in walk_with_locks(sp, lambda s: s):
@@ -261,6 +346,30 @@ def run(ctx) -> None:
                     okw = False
     ctx.check(okw and ncall >= 1, RW, "ProcessWatcher.run", "the termination callback is called without re-checking the stop flag after the polling loop: a watcher that was told to stop while the child was being killed restarts the process once more (two children, leaked watcher)", W.methods["run"].loc)
 
+    RWX = ctx.rule(
+        "C18/watcher-reports-exactly-the-exit",
+        "ProcessWatcher.run reaches the termination callback only after `poll() is None` was decided false (the child has exited), and "
+        "leaves without calling it only when the stop event was observed set (or no callback was given)",
+        floor=2,
+    )
+    ok_exit, ok_quiet, nquiet, msgx = True, True, 0, ""
+    for p in wp:
+        flat = p.evs  # top level: the last iteration of the polling loop is spliced in after the loop's summary
+        calls = [i for i, e in enumerate(flat) if e.kind == "call" and e.extra.get("func") == "self.process_termination_callback"]
+        if calls:
+            polls = [e for e in flat[: calls[0]] if e.kind == "cond" and re.fullmatch(r"self\.popen_obj\.poll\(\) is None|self\.popen_obj\.poll\(\) is not None", e.text)]
+            exited = bool(polls) and ((polls[-1].text.endswith("is None") and polls[-1].extra.get("truth") is False) or (polls[-1].text.endswith("is not None") and polls[-1].extra.get("truth") is True))
+            if not exited:
+                ok_exit, msgx = False, "the callback is reached on a path where the child was last seen alive (or never polled): the trick restarts a running child over and over"
+        elif p.outcome is NORMAL or p.outcome[0] == "return":
+            nquiet += 1
+            c = [(e.text, e.extra.get("truth")) for e in flat if e.kind == "cond"]
+            stopped = any((".stopped_event.wait(" in t and v is True) or (t.endswith("stopped_event.is_set()") and v is True) or ("should_keep_running" in t and v is False) or (t == "self.process_termination_callback" and v is False) for t, v in c)
+            if not stopped:
+                ok_quiet, msgx = False, "the watcher leaves without calling the callback although nobody asked it to stop: the child's exit is never reported, restart_on_command_exit silently stops working"
+    ctx.check(ok_exit and ncall >= 1, RWX, "ProcessWatcher.run callback only after the child exited", msgx, W.methods["run"].loc)
+    ctx.check(ok_quiet and nquiet >= 1, RWX, "ProcessWatcher.run silent exit only when stopped", msgx or "no silent exit path found", W.methods["run"].loc)
+
     # ---------------------------------------------------------------- ShellCommandTrick
     S = P.cls("ShellCommandTrick")
     cfg3 = ThreadCfg(P, follow_attrs=False, no_inline={"join", "start", "is_process_running"})
@@ -291,6 +400,16 @@ DB = "utils/event_debouncer.py"
 TR = "tricks/__init__.py"
 PW = "utils/process_watcher.py"
 VARIANTS = [
+    dict(name="B watcher polls with the wrong polarity", expect="fire", rule="C18/watcher-reports-exactly-the-exit", edits=[("utils/process_watcher.py", "while self.popen_obj.poll() is None:", "while self.popen_obj.poll() is not None:")]),
+    dict(name="B watcher gives up at the first poll interval", expect="fire", rule="C18/watcher-reports-exactly-the-exit", edits=[("utils/process_watcher.py", "if self.stopped_event.wait(timeout=0.1):", "if not self.stopped_event.wait(timeout=0.1):")]),
+    dict(name="E watcher polls in break form", expect="silent", edits=[("utils/process_watcher.py", "        while self.popen_obj.poll() is None:\n            if self.stopped_event.wait(timeout=0.1):\n                return\n", "        while True:\n            if self.popen_obj.poll() is not None:\n                break\n            if self.stopped_event.wait(timeout=0.1):\n                return\n")]),
+    dict(name="B first-event wait polarity negated", expect="fire", rule="C18/", edits=[(DB, "while not self._events and self.should_keep_running():", "while not (not self._events and self.should_keep_running()):")]),
+    dict(name="B debounce wait skipped when an interval is set", expect="fire", rule="C18/debounce-quiescence", edits=[(DB, "                if self.debounce_interval_seconds:\n", "                if not self.debounce_interval_seconds:\n")]),
+    dict(name="B batch handed over when notified instead of when timed out", expect="fire", rule="C18/debounce-quiescence", edits=[(DB, "if not self._cond.wait(timeout=self.debounce_interval_seconds):", "if self._cond.wait(timeout=self.debounce_interval_seconds):")]),
+    dict(name="B debounce loop without the time-out exit", expect="fire", rule="C18/debounce-quiescence", edits=[(DB, "                        if not self._cond.wait(timeout=self.debounce_interval_seconds):\n                            break\n", "                        self._cond.wait(timeout=self.debounce_interval_seconds)\n")]),
+    dict(name="B debounce block before the wait for the first event", expect="fire", rule="C18/debounce-quiescence", edits=[(DB, "                while not self._events and self.should_keep_running():\n                    self._cond.wait()\n\n                if self.debounce_interval_seconds:\n                    # Wait for additional events (or shutdown) until the debounce interval passes.\n                    while self.should_keep_running():\n                        if not self._cond.wait(timeout=self.debounce_interval_seconds):\n                            break\n", "                if self.debounce_interval_seconds:\n                    while self.should_keep_running():\n                        if not self._cond.wait(timeout=self.debounce_interval_seconds):\n                            break\n\n                while not self._events and self.should_keep_running():\n                    self._cond.wait()\n")]),
+    dict(name="B fixed one-second debounce", expect="fire", rule="C18/debounce-quiescence", edits=[(DB, "if not self._cond.wait(timeout=self.debounce_interval_seconds):", "if not self._cond.wait(timeout=1):")]),
+    dict(name="E time-out result in a local", expect="silent", edits=[(DB, "                        if not self._cond.wait(timeout=self.debounce_interval_seconds):\n                            break\n", "                        notified = self._cond.wait(timeout=self.debounce_interval_seconds)\n                        if not notified:\n                            break\n")]),
     dict(name="B callback runs with the condition released", expect="fire", rule="C18/in-flight-callback-excludes-stop", edits=[(DB, "                self._events = []\n                self.events_callback(events)", "                self._events = []\n                self._cond.release()\n                try:\n                    self.events_callback(events)\n                finally:\n                    self._cond.acquire()")]),
     dict(name="B trick stops the child before the debouncer", expect="fire", rule="C18/in-flight-callback-excludes-stop", edits=[("tricks/__init__.py", "        if self.event_debouncer is not None:\n            self.event_debouncer.stop()\n        self._stop_process()\n", "        self._stop_process()\n        if self.event_debouncer is not None:\n            self.event_debouncer.stop()\n")]),
     dict(name="E callback outside the condition, spawn re-validated under the stopping lock", expect="silent", edits=[(DB, "                self._events = []\n                self.events_callback(events)", "                self._events = []\n                self._cond.release()\n                try:\n                    self.events_callback(events)\n                finally:\n                    self._cond.acquire()"), ("tricks/__init__.py", "        if self._is_trick_stopping:\n            return\n\n        # windows doesn't have setsid\n        self.process = subprocess.Popen(self.command, preexec_fn=getattr(os, \"setsid\", None))\n", "        with self._stopping_lock:\n            if self._is_trick_stopping:\n                return\n            # windows doesn't have setsid\n            self.process = subprocess.Popen(self.command, preexec_fn=getattr(os, \"setsid\", None))\n")]),
